@@ -222,6 +222,7 @@ def run(col, configs, tier):
         guarded(col, X2.rule_mantissa_plus_paths, facts)
         from rules import extra as X
         guarded(col, X.rule_mixed_base_scaling, facts)
+        guarded(col, X.rule_incremented_digit_in_range, facts)
         from rules import c15
         guarded(col, c15.rule_parse_specials, facts)
         guarded(col, c15.rule_write_specials, facts)
